@@ -1794,7 +1794,9 @@ impl Sessions {
                 .flat_map(|sess| sess.exchanges.iter())
                 .filter_map(|exch| exch.as_ref())
                 .all(|exch| {
-                    !matches!(exch.role, Role::Responder(_)) || exch.exch_id != next_exch_id
+                    // The new ID is for an exchange we initiate, so it has to be unique among
+                    // the exchanges initiated by us (responder exchanges carry IDs chosen by the peers)
+                    !matches!(exch.role, Role::Initiator(_)) || exch.exch_id != next_exch_id
                 })
             {
                 break;
